@@ -104,22 +104,29 @@ def rule_initadd(chk, prog, tier, rid='C02.i', bits=False):
                  floor=390)
     fn = prog.require_func('initadd', 'init.c')
     mk = prog.require_func('mkinit')
-    IV = [(0, 4), (4, 8), (8, 12), (12, 16), (0, 8), (8, 16), (0, 16)]
+    # (start, end[, bits before, bits after]) + kind: 'S' scalar expression, 'A' aggregate / string (the only kind that may be overlaid in part)
+    IV = [(0, 4), (4, 8), (8, 12), (12, 16), (0, 8, 'A'), (8, 16, 'A'), (0, 16, 'A'), (0, 8, 'S'), (2, 4, 'S')]
     if bits:
         # bit-granular: four bit-fields sharing the storage unit [0,4), the next unit, the plain member after it and enclosing aggregates
-        IV = [(0, 4, 0, 29), (0, 4, 3, 24), (0, 4, 8, 15), (0, 4, 17, 0), (4, 8, 0, 20), (4, 8, 12, 0), (8, 12), (0, 4), (0, 8), (0, 12)]
-    IV = [iv if len(iv) == 4 else iv + (0, 0) for iv in IV]
+        IV = [(0, 4, 0, 29), (0, 4, 3, 24), (0, 4, 8, 15), (0, 4, 17, 0), (4, 8, 0, 20), (4, 8, 12, 0), (8, 12), (0, 4), (0, 8, 'A'), (0, 12, 'A')]
+    def norm(iv):
+        kind = iv[-1] if isinstance(iv[-1], str) else 'S'
+        nums = tuple(x for x in iv if not isinstance(x, str))
+        return (nums if len(nums) == 4 else nums + (0, 0)) + (kind,)
+    IV = [norm(iv) for iv in IV]
     M = {'xmalloc': lambda it, a, e: Ptr(Obj('init', 'heap'), ())}
     def ref(seq):
         lst = []
-        for i, (s, e, bb, ba) in enumerate(seq):
+        for i, (s, e, bb, ba, kind) in enumerate(seq):
             lo, hi = s * 8 + bb, e * 8 - ba
             lst = [o for o in lst if not (lo <= o[4] and o[5] <= hi)]
+            # a scalar is never initialised in part: an earlier scalar entry that overlaps the new one belongs to another member of a union and is replaced
+            lst = [o for o in lst if not (o[7] == 'S' and o[4] < hi and lo < o[5])]
             pos = len(lst)
             for j, o in enumerate(lst):
                 if o[4] >= hi: pos = j; break
             # an initializer nested inside an earlier, larger one goes after it
-            lst.insert(pos, (s, e, bb, ba, lo, hi, i))
+            lst.insert(pos, (s, e, bb, ba, lo, hi, i, kind))
         return [(o[0], o[1], o[2], o[3], o[6]) for o in lst]
     maxn = 3
     seqs = []
@@ -131,9 +138,12 @@ def rule_initadd(chk, prog, tier, rid='C02.i', bits=False):
             p = Obj('parser', 'local')
             p.f[('init',)] = None
             out = []
-            for i, (s, e, bb, ba) in enumerate(seq):
+            w = cmodel.World(prog, it=it, target='x86_64-sysv')
+            agg = w.mkstruct(size=16, align=4)
+            for i, (s, e, bb, ba, kind) in enumerate(seq):
                 p.f[('last',)] = Ptr(p, ('init',))      # a designator restarts the search at the head
-                ini = it.call(mk, [s, e, StructVal({('before',): bb, ('after',): ba}), cmodel.val('e%d' % i)])
+                ex = w.mkexpr('EXPRCONST', w.t('int')) if kind == 'S' else w.mkexpr('EXPRIDENT', agg)
+                ini = it.call(mk, [s, e, StructVal({('before',): bb, ('after',): ba}), ex])
                 ini.obj.tag = i
                 it.call(fn, [Ptr(p, ()), ini])
             cur = p.f[('init',)]
